@@ -47,9 +47,7 @@ Print Assumptions C04_prefix.
    residual buffer never contains a complete frame *)
 Theorem C04_terminates : forall decode fuel buf, (length buf <= fuel)%nat ->
   drain decode fuel buf = drain_all decode buf /\ split_frame (snd (drain_all decode buf)) = None.
-Proof.
-  intros decode fuel buf H. split; [apply drain_fuel; exact H|apply (residual_incomplete decode (length buf)); apply le_n].
-Qed.
+Proof. exact drain_terminates. Qed.
 Print Assumptions C04_terminates.
 
 (* message framing: each non-empty message yields exactly the frame it contains; an empty message
